@@ -58,14 +58,14 @@ def text_layout(ctx, r, F):
     simd_r = "opt-simd-parse-hex" in F.features
     # ---- writer
     for mode in ("Empty", "WithVersion"):
-        rec = W["modes"].get(mode)
+        rec0 = W["modes"].get(mode)
         ctx.instance(r)
-        if rec is None:
+        if rec0 is None:
             ctx.missing(r, "writer path for prefix %s" % mode, cfg=F.key)
             continue
         bad = []
         kinds = {"checksum": ("rev_array",), "lvalue": ("rev_1",), "qratios": ("rev_1",), "body": ("hex_simd:Upper",) if simd_w else ("plain_array",)}
-        for name, env in envs:
+        for rec, (name, env) in [(r_, ne) for r_ in [rec0] + rec0.get("alts", []) for ne in envs]:
             ref = ref_text_layout(env, mode)
             seen = {}
             lit = {}
